@@ -64,7 +64,6 @@ type TopicRecords map[string][][]byte
 func ExplodeXML(raw []byte, cfg ExplodeConfig) (Result, error) {
 	decoder := xml.NewDecoder(bytes.NewReader(raw))
 	decoder.Strict = false
-	decoder.AutoClose = xml.HTMLAutoClose
 
 	segmentStack := make([]segmentFrame, 0, 16)
 	result := Result{}
